@@ -294,6 +294,19 @@ fn main() {
         }}}}
     }
     for garbage in ["", " ", "1.2.3", "{}", "()", "(schema:(),vars:())", "null", "(schema:(core:[var(Major)],extra_core:[],build:[]))", "(vars:(major:Some(1)))", "\u{0}", "((((((((((((((((((((", "(schema:(core:[var(Major)],extra_core:[],build:[]),vars:(major:Some(-1)))", "(schema:(core:[var(Major)],extra_core:[],build:[]),vars:(major:Some(18446744073709551616)))"] { mutants.push(garbage.to_string()); }
+    // the same objects in other notations: JSON (compact and pretty, as serde writes them and hand-shortened), a JSON
+    // document wrapped in RON parentheses, YAML-like and TOML-like text - none of them is RON
+    let mut other_notations = 0u64;
+    for (_, sc, v) in objects.iter().step_by((objects.len() / 60).max(1)) {
+        if let Ok(z) = bind::zerv(sc, v) {
+            if let Ok(j) = serde_json::to_string(&z) { mutants.push(j.clone()); mutants.push(format!("({j})")); mutants.push(format!(" {j}\n")); other_notations += 3; }
+            if let Ok(j) = serde_json::to_string_pretty(&z) { mutants.push(j); other_notations += 1; }
+        }
+    }
+    for d in ["{\"schema\":{\"core\":[{\"var\":\"Major\"},{\"var\":\"Minor\"},{\"var\":\"Patch\"}],\"extra_core\":[],\"build\":[]},\"vars\":{\"major\":1,\"minor\":2,\"patch\":3}}",
+        "{\"schema\":{\"core\":[{\"var\":\"Major\"}],\"extra_core\":[],\"build\":[]},\"vars\":{\"major\":1,\"custom\":{}}}",
+        "schema:\n  core:\n    - var: Major\n  extra_core: []\n  build: []\nvars:\n  major: 1\n", "[schema]\ncore = [{ var = \"Major\" }]\nextra_core = []\nbuild = []\n[vars]\nmajor = 1\n",
+        "Zerv(schema:(core:[var(Major)],extra_core:[],build:[]),vars:(major:Some(1)))", "#![enable(implicit_some)]\n(schema:(core:[var(Major)],extra_core:[],build:[]),vars:(major:1))"] { mutants.push(d.to_string()); other_notations += 1; }
     let s4 = mutants.par_iter().map(|m| {
         let mut st = Stats::default();
         st.inc("document_mutants");
@@ -372,7 +385,7 @@ fn main() {
     cov.evaluations = cov.transitions;
     cov.traces_validated = cov.transitions;
     cov.distinct_nontrivial = objects.len() as u64 + all.get("mutants_accepted") + all.get("invalid_schema_refused");
-    cov.rule = format!("(a) {} objects: each string variable over {} nasty strings, each numeric variable over [0,1,2^63,2^64-1], custom over {} JSON shapes, under 22 presets + 3 custom schemas, plus nasty text inside schema literals{}: parse(emit(z))==z and byte-identical re-emission; (a2) {} pipe jobs (version and flow, sources none/stdin, overrides/bumps incl. epoch 0) x 5 renderings: direct == piped; (c) {} structurally generated schemas (every variable in every section, all orders/duplications of Major/Minor/Patch, all pairs of secondaries, timestamp patterns, empty; every component sequence up to length 4/4/2 (thorough 6/6/4) over a 6-symbol alphabet per section with the other sections valid, and the full product of sequences of length <=2 x <=2 x <=1 (thorough <=3 x <=3 x <=1) across sections) on 4 entry paths: accepted iff R-SCH valid; (b) {} document mutants (byte deletions/substitutions, stride {stride}; thorough adds every pair of single-byte edits on a compact document) + garbage: no panic, rendered only if parseable with a valid schema", objects.len(), strs.len(), customs.len(), if quick { "" } else { " and all (string, custom) pairs" }, pipe_jobs.len(), rule_schemas.len(), mutants.len());
+    cov.rule = format!("(a) {} objects: each string variable over {} nasty strings, each numeric variable over [0,1,2^63,2^64-1], custom over {} JSON shapes, under 22 presets + 3 custom schemas, plus nasty text inside schema literals{}: parse(emit(z))==z and byte-identical re-emission; (a2) {} pipe jobs (version and flow, sources none/stdin, overrides/bumps incl. epoch 0) x 5 renderings: direct == piped; (c) {} structurally generated schemas (every variable in every section, all orders/duplications of Major/Minor/Patch, all pairs of secondaries, timestamp patterns, empty; every component sequence up to length 4/4/2 (thorough 6/6/4) over a 6-symbol alphabet per section with the other sections valid, and the full product of sequences of length <=2 x <=2 x <=1 (thorough <=3 x <=3 x <=1) across sections) on 4 entry paths: accepted iff R-SCH valid; (b) {} document mutants (byte deletions/substitutions, stride {stride}; thorough adds every pair of single-byte edits on a compact document) + garbage + {other_notations} documents in other notations (JSON as serde writes the object, compact / pretty / wrapped, YAML- and TOML-like): no panic, rendered only if parseable with a valid schema", objects.len(), strs.len(), customs.len(), if quick { "" } else { " and all (string, custom) pairs" }, pipe_jobs.len(), rule_schemas.len(), mutants.len());
     cov.exhaustive = true;
     cov.samples = vec![json!(objects[7].0), json!({"cmd": pipe_jobs[3].0, "args": pipe_jobs[3].1}), json!(sch::ron_schema(&rule_schemas[40])), json!(truncate(&mutants[100], 100))];
     cov.set("clause_counts", all.to_json());
